@@ -35,7 +35,8 @@ def o1_checkin(chk, prog, nreplies, with_cache):
     name = 'O1-checkin-%dreplies%s' % (nreplies, '-cache' if with_cache else '')
     ob = chk.begin(name, 'Server::checkin_cleanup from arbitrary flags (in_transaction, copy, needs_cleanup_set/prepare, cleanup_connections'
                    '%s), server answers the first %d of the expected CommandComplete/ReadyForQuery messages (tags and statuses symbolic) '
-                   'and then the stream ends: SQL sent = ROLLBACK iff in transaction, then RESET ROLE;[RESET ALL;][DEALLOCATE ALL;] iff '
+                   'and then the stream ends: in COPY mode nothing is sent and the connection is marked bad (a backend in COPY swallows the '
+                   'cleanup query); otherwise SQL sent = ROLLBACK iff in transaction, then RESET ROLE;[RESET ALL;][DEALLOCATE ALL;] iff '
                    'marked dirty; flags afterwards as the protocol dictates; any failure leaves the connection marked bad'
                    % (', 2-entry statement cache' if with_cache else '', nreplies),
                    {'reply_messages_available': nreplies, 'statement_cache': with_cache})
@@ -95,7 +96,12 @@ def o1_checkin(chk, prog, nreplies, with_cache):
                 if not ref.data_avail:
                     return True
         okq = True
-        if ref.in_tx:
+        if ref.copy:
+            # a backend in COPY mode swallows whatever is sent next as a COPY abort (protocol): such a connection cannot be
+            # cleaned -- nothing may be sent and it must not be reused (marked bad)
+            okq = False
+            ref.bad = True
+        if okq and ref.in_tx:
             okq = ref_query('ROLLBACK')
         if okq and (ref.cl_set or ref.cl_prep) and cleanc:
             sql = 'RESET ROLE;' + ('RESET ALL;' if ref.cl_set else '') + ('DEALLOCATE ALL;' if ref.cl_prep else '')
